@@ -79,8 +79,8 @@ Universe == [ scheme |-> <<"http", "https", "">>,
               hdrs |-> << <<>>, <<HL("x-k", "v")>>, <<HL("X-K", "V")>>, <<HL("X-K", "xvx")>>, <<HL("X-K", "vx")>>, <<HL("X-K", "xv")>>,
                           <<HL("X-K", "w")>>, <<HL("X-K", "w"), HL("x-k", "v")>>, <<HL("X-J", "v")>>, <<HL("X-K", "v"), HL("X-J", "v")>>,
                           <<HL("X-K", "k-ab")>>, <<HL("x-k", "K-AB")>>, <<HL("X-K", "xk-ab9")>>, <<HL("X-K", "K-ab")>> >>,
-              at |-> <<"2024-03-10T12:30:00Z", "2024-03-10T11:59:59Z", "2024-03-10T12:00:00Z", "2024-03-10T12:59:59Z", "2024-03-10T13:00:00Z",
-                       "2024-03-10T23:59:59Z", "2024-03-11T00:00:00Z", "2024-03-11T12:30:00Z", "">>,
+              at |-> <<"2024-03-10T12:30:00Z", "2024-03-10T11:59:59.750Z", "2024-03-10T12:00:00Z", "2024-03-10T12:59:59.750Z", "2024-03-10T13:00:00Z",
+                       "2024-03-10T23:59:59.750Z", "2024-03-11T00:00:00Z", "2024-03-11T12:30:00Z", "">>,
               path |-> <<"/a", "/x/ab", "/b", "/A", "/x/AB", "/x/ab/y", "/x/", "/X/ab", "/X/ab/y">> ]
 
 PoolSeq == SetToSeq(Pool)
